@@ -181,8 +181,10 @@ def seeds(rng):
     ps = [gen_psbt.gen_psbt(rng, big=(i % 9 == 0)) for i in range(14)]
     s["psbt.parse"] = [g["bytes"] for g in ps]
     s["psbt.parse.c1"] = s["psbt.parse.c2"] = s["psbtview"] = s["psbt.parse"]
-    s["psbt.read_from.noseek"] = s["psbt.parse"]
-    s["tx.read_from.noseek"] = s["tx.parse"]
+    s["psbt.read_from.noseek"] = s["psbt.read_from.file"] = s["psbt.parse"]
+    s["tx.read_from.noseek"] = s["tx.read_from.file"] = s["tx.parse"]
+    s["script.read_from.file"] = s["script.parse"]
+    s["witness.read_from.file"] = s["witness.parse"]
     scopes = [gen_psbt.split_scopes(g["bytes"]) for g in ps[:6]]
     s["psbt.in.parse"] = [b"".join(gen.kv(k, v) for k, v in sc[1]) + b"\x00" for sc in scopes if len(sc) > 1]
     s["psbt.out.parse"] = [b"".join(gen.kv(k, v) for k, v in sc[-1]) + b"\x00" for sc in scopes]
@@ -246,9 +248,9 @@ def seeds(rng):
         except Exception:
             pass
     s["pset.parse"] = s["pset.parse"][:6] or [b"pset\xff\x00"]
-    s["pset.parse.c1"] = s["psetview"] = s["pset.read_from.noseek"] = s["pset.parse"]
+    s["pset.parse.c1"] = s["psetview"] = s["pset.read_from.noseek"] = s["pset.read_from.file"] = s["pset.parse"]
     s["ltx.parse"] = s["ltx.parse"][:6] or [b"\x02\x00\x00\x00\x00\x00\x00\x00\x00\x00\x00"]
-    s["ltx.read_from.noseek"] = s["ltx.parse"]
+    s["ltx.read_from.noseek"] = s["ltx.read_from.file"] = s["ltx.parse"]
     return s
 
 
@@ -297,7 +299,7 @@ def explore(c, per_seed):
                     # every prefix of a few valid texts (a parser must also end when the text stops anywhere)
                     exhaustive[ep] = exhaustive.get(ep, 0) + 1
                     muts = muts + [("truncate-every", s[:k]) for k in range(len(s))]
-                if ep in ("psbt.parse", "psbt.parse.c1", "psbtview", "psbt.read_from.noseek"):
+                if ep in ("psbt.parse", "psbt.parse.c1", "psbtview", "psbt.read_from.noseek", "psbt.read_from.file"):
                     muts = muts + psbt_targeted(c.rng, s)[: per_seed * 2]
                 for kind, m in muts:
                     judge(c, ep, kind, m, w.call(ep, m, text), False)
